@@ -143,6 +143,21 @@ LOOKALIKE = [
 ]
 
 
+def _dialect_chunk(rng):
+    """A block of statements from the parser stack's dialect generator (harness/props/pgen.py), laid out by
+    its layout generator, wrapped in do ... end so that a final return / break stays legal.  ASCII only."""
+    try:
+        from props import pgen
+    except ImportError:
+        import pgen
+    for _ in range(20):
+        p = pgen.generate_program(rng, maxdepth=3, size=rng.randrange(1, 5))
+        src = pgen.layout(p, rng, rng.choice(['random', 'lines', 'spaces']))
+        if all(c in (9, 10) or 32 <= c < 127 for c in src) and b'require' not in src:
+            return b'do\n' + src + b'\nend'
+    return b'do local q=3 end'
+
+
 def _gl_fn(rng, inner):
     name = rng.choice(GL)
     k = rng.randrange(4)
@@ -158,7 +173,7 @@ def _gl_fn(rng, inner):
     return b'function  ' + name + b' ( )\n\t' + body + b'\n end'
 
 
-def _body(rng, reqs, gl_positions, final_newline, ret, v0, gl_reqs=()):
+def _body(rng, reqs, gl_positions, final_newline, ret, v0, gl_reqs=(), dialect=False):
     """reqs: [(name, gl)] calls to place in the body; gl_positions: subset of {'start','middle','end'};
     gl_reqs: calls to place inside a game-loop function."""
     stmts = []
@@ -169,6 +184,9 @@ def _body(rng, reqs, gl_positions, final_newline, ret, v0, gl_reqs=()):
         forms.append(f)
     for _ in range(rng.randrange(0, 4)):
         stmts.insert(rng.randrange(len(stmts) + 1), rng.choice(FILLER))
+    if dialect:
+        stmts.insert(rng.randrange(len(stmts) + 1), _dialect_chunk(rng))
+        forms.append('dialect')
     if rng.random() < 0.25:
         stmts.insert(rng.randrange(len(stmts) + 1), rng.choice(LOOKALIKE))
     inner = [None] * 3
@@ -332,7 +350,8 @@ def gen_case(rng, tier, ambiguous_ok=False):
                 glr.append((n, None if pol[n] != 'true' else True))
                 feats.add('req-in-gl')
         fn = rng.random() < (0.6 if tier != 'tiny' else 0.5)
-        body, forms = _body(rng, edges[src], pos, fn, rng.random() < 0.4 and not is_main, 0, glr)
+        body, forms = _body(rng, edges[src], pos, fn, rng.random() < 0.4 and not is_main, 0, glr,
+                            dialect=rng.random() < (0.3 if tier == 'thorough' else 0.15))
         if tier == 'thorough' and rng.random() < 0.05:
             body = body.replace(b'\n', b'\r\n')
             feats.add('crlf')
